@@ -31,6 +31,8 @@ def levels(tier):
              "backends": ["file", "memory"], "links_batch": 2},
             {"name": "mixed-n1", "pools": [[[1], [2, 1], [1, 2]], [[2], [1, 1], [2, 2]]], "absent": [2], "n": 1, "alphabet": alpha,
              "backends": ["memory"], "links_batch": 2},
+            {"name": "clear-n1", "pools": [short], "absent": [1], "n": 1, "prelude": [["links", [[0, 1]]], ["clear"]], "alphabet": ["page", "links"],
+             "backends": ["file", "memory"], "links_batch": 1},
             {"name": "str-lrus", "concrete": STR_LRUS, "concrete_absent": ["s:http|", "h:cafe|"], "as_str": True, "n": 2,
              "alphabet": ["page", "links", "we"], "backends": ["memory", "file"], "links_batch": 1},
         ]
@@ -99,6 +101,7 @@ def harness(E):
     t = open_index(E, backend, default_webentity_creation_rule=NEVER, webentity_creation_rules={})
     ref = Ref()
     h = History(E, t, ref, pool, P["alphabet"], P)
+    h.prelude(P.get("prelude"))
     for i in range(P["n"]):
         h.step(i)
     queries = []
